@@ -34,7 +34,7 @@ func main() {
 		Rule: "case = generated store configuration (sector/block size, old/current/new/spare, policy, index backend and size, flat/hierarchical, raw/CAS factory) x generated history of Put (good, size mismatch, hash mismatch, source error, arbitrary chunkings)/Get/FindMissing/GetFromComposite, sequential (group seq) or by 2-8 concurrent clients on <=4 keys with yields inside device I/O and upload sources (group conc); " +
 			"distinct = hash of (configuration, operation kinds and sizes); non-trivial = the history contains a read that returned bytes after at least one block rotation or a failed upload that was probed",
 		Workers:     12,
-		Floors:      map[string]int64{"reads_with_bytes": 2000, "failed_uploads_probed": 300, "rotations": 300, "composite_child_reads": 100, "conc_reads_with_bytes": 500, "shared_sector_pairs": 200, "uploads_ok": 2000, "adjacent_triples": 300, "conc_composite_reads": 150},
+		Floors:      map[string]int64{"reads_with_bytes": 2000, "failed_uploads_probed": 300, "rotations": 300, "composite_child_reads": 100, "conc_reads_with_bytes": 500, "shared_sector_pairs": 120, "uploads_ok": 2000, "adjacent_triples": 300, "conc_composite_reads": 150},
 		Assumptions: []string{"the simulated block device is linearizable per call", "register recency (latest value wins) is not part of C01 and is not asserted"},
 		Race:        true,
 		Body:        body,
